@@ -262,7 +262,7 @@ for _p, _t in _EXTRA6.items():
 # Seventh round (DESIGN §8 round 7).
 _EXTRA7 = {
  "C01": " (R-TXN-12) the uncommitted views are partitioned over the ViewType enum: every updatable view type is taken by exactly one selector of the Updated map, so COMMIT either writes a changed table or stores its restore point (STDIN is in memory but not a temporary table).",
- "C02": " Seventh round: R-TXN-6 registered (a cancelled encode never reports success). (R-FMT-10) under ENCLOSE_ALL the quote flag of a cell is a function of the option and the kind of the value, never of its text; (R-FMT-11) files are never coloured — genuine defect repaired (the reader tells \"\" from an unquoted empty field = NULL).",
+ "C02": " Seventh round: R-TXN-6 registered (a cancelled encode never reports success). (R-FMT-10) under ENCLOSE_ALL the quote flag of a cell is a function of the option and the kind of the value, never of its text; (R-FMT-12) bytes written next to EncodeView's output are encoded like the file — genuine defect repaired (UTF-16 files ended in a raw 0x0A); (R-FMT-11) files are never coloured — genuine defect repaired (the reader tells \"\" from an unquoted empty field = NULL).",
  "C03": " Seventh round: (R-PAR-5) the parallel paths of WHERE / JOIN hand every row to exactly one worker; R-CMP-6 registered (the BETWEEN / IN expansions decide which rows WHERE keeps); (R-REC-1) the recursion marker of a scope is written by its creator only, (R-ITER-1) a result assigned inside a per-row callback holds a value when it is read, (R-IDENT-2) names are compared case-insensitively everywhere — three genuine defects repaired (a UNION nested in a recursive CTE, LATERAL over an empty table, `T1.*`); R-CMP-10, R-KEY-7 registered.",
  "C04": " Seventh round: (R-PAR-5) the parallel key computation of GROUP BY hands every row to exactly one worker; (R-DST-1) every success return of an aggregate evaluation honours DISTINCT — genuine defect repaired (COUNT(DISTINCT literal)); (R-KEY-7) a byte buffer whose content becomes a map key is written only by the framed key serialisers (a memo keyed by raw texts joined with ':' hands one bucket key to two tuples); (R-CONV-4) lib/query reads a text as a number only through the lib/value conversions, apart from three listed built-ins — an aggregate with its own parser sums other rows than its bucket holds. (R-SRT-8) comparison keys of datetimes are exact.",
  "C05": " Seventh round: (R-ORD-2) a map-ordered loop that publishes its values is keyed by the container key — genuine defect repaired: UPDATE / DELETE of one table under two aliases lost one alias's changes; (R-TXN-12); R-SCP-1 registered.",
